@@ -153,7 +153,48 @@ def exc_origin(e):
 
 # --------------------------------------------------------------------------
 # generation of abstract messages legal for the library's option formats
-STRINGS = ["", "a", "core", ".well-known", "é", "日本", "\U0001f600", "a" * 12, "b" * 13, "é" * 6, "x" * 268, "y" * 269, "z" * 300, "nul\x00", "tab\t"]
+# String option values are Unicode strings that travel as their UTF-8 bytes,
+# verbatim: RFC 7252 treats them as opaque, a codec must not normalise.  So the
+# value alphabet has strings that are NOT in one or more of the Unicode normal
+# forms next to ones that are in all of them (escapes, so that no editor
+# normalises this file):
+UNICODE_SAMPLES = [
+    "plain",  # in every normal form
+    "bl\u00e5b\u00e6r",  # precomposed: NFC/NFKC, not NFD/NFKD
+    "\uac00",  # precomposed Hangul syllable: not NFD/NFKD
+    "cafe\u0301",  # e + COMBINING ACUTE: NFD, not NFC/NFKC
+    "A\u030a",  # A + COMBINING RING ABOVE: not NFC
+    "\u212b",  # ANGSTROM SIGN, singleton: in no normal form
+    "\u2126m",  # OHM SIGN, singleton
+    "\u0340",  # COMBINING GRAVE TONE MARK, singleton -> U+0300 (two bytes CD 80)
+    "\u037e",  # GREEK QUESTION MARK, singleton -> ';'
+    "\uf900",  # CJK compatibility ideograph, singleton
+    "\u1100\u1161\u11a8",  # conjoining Hangul jamo: NFD, not NFC
+    "q\u0323\u0307",  # two combining marks in canonical order: all forms
+    "q\u0307\u0323",  # the same marks misordered: in no normal form
+    "\ufb01n",  # LATIN SMALL LIGATURE FI: NFC/NFD, not NFKC/NFKD
+    "\u00b5s",  # MICRO SIGN: not NFKC/NFKD
+    "\u2460\uff21",  # CIRCLED DIGIT ONE, FULLWIDTH A: compatibility characters
+    "x\u00b2",  # SUPERSCRIPT TWO: not NFKC/NFKD
+    "\u1e9b\u0323",  # LONG S WITH DOT ABOVE + DOT BELOW: differs in all four forms
+]
+STRINGS = ["", "a", "core", ".well-known", "\u00e9", "\u65e5\u672c", "\U0001f600", "a" * 12, "b" * 13, "\u00e9" * 6, "x" * 268, "y" * 269, "z" * 300, "nul\x00", "tab\t"] + UNICODE_SAMPLES
+# string-format options of RFC 7252 (Uri-Host, Location-Path, Uri-Path, Uri-Query, Location-Query, Proxy-Uri, Proxy-Scheme)
+STRING_OPTS = [3, 8, 11, 15, 20, 35, 39]
+
+
+def check_unicode_samples():
+    """The value alphabet must really contain, for every normal form, values
+    outside it (and values inside all of them); judged with Python's Unicode
+    database, which is only used to *choose* inputs."""
+    import unicodedata
+
+    for form in ("NFC", "NFD", "NFKC", "NFKD"):
+        outside = [s for s in UNICODE_SAMPLES if not unicodedata.is_normalized(form, s)]
+        if len(outside) < 3:
+            raise MachineryError("string value alphabet has only %d values outside %s" % (len(outside), form))
+    if not any(all(unicodedata.is_normalized(f, s) for f in ("NFC", "NFD", "NFKC", "NFKD")) and not s.isascii() for s in UNICODE_SAMPLES):
+        raise MachineryError("string value alphabet has no non-ASCII value that is in all normal forms")
 UINTS = [0, 1, 12, 13, 255, 256, 65535, 65536, 2**24 - 1, 2**32 - 1, 2**32, 2**64 - 1, 2 ** (8 * 12) - 1, 2 ** (8 * 12), 2 ** (8 * 13) - 1]
 KNOWN = [1, 3, 4, 5, 6, 7, 8, 9, 11, 12, 13, 14, 15, 16, 17, 19, 20, 21, 23, 27, 28, 31, 35, 39, 60, 252, 258, 292, 548]
 UNKNOWN = [0, 2, 10, 24, 25, 26, 61, 100, 268, 269, 270, 281, 282, 300, 2048, 4096, 65000, 65534, 65535]
@@ -168,8 +209,13 @@ def gen_value(rng, cat, length=None):
     if cat == "string":
         if length is not None:
             # exactly `length` bytes of valid UTF-8
-            if length >= 2 and rng.random() < 0.3:
-                return ("é" * (length // 2)).encode() + (b"a" if length % 2 else b"")
+            r = rng.random()
+            if length >= 2 and r < 0.25:
+                return ("\u00e9" * (length // 2)).encode() + (b"a" if length % 2 else b"")
+            if length >= 3 and r < 0.5:
+                # decomposed (not NFC) / singleton (in no normal form), exactly `length` bytes
+                unit = rng.choice(["e\u0301", "\u212b", "\uf900", "\u1100"])
+                return (unit * (length // 3)).encode() + b"a" * (length % 3)
             return bytes(rng.choice(b"abcxyz-._~") for _ in range(length))
         return rng.choice(STRINGS).encode("utf-8")
     if cat in ("uint", "block", "cf"):
@@ -254,6 +300,21 @@ def boundary_messages(impl):
                 out.append((ty, code, 0xFFFF if tkl else 0, bytes(range(1, tkl + 1)), [], b"" if code == 0 else b"\x00"))
     for code in range(256):
         out.append((0, code, 0x8001, b"\x00", [], b""))
+    return out
+
+
+def unicode_messages(impl):
+    """Every value of the string alphabet (normalised and not, in each of the
+    four normal forms) in every string-format option, alone, repeated, and all
+    string options together."""
+    nums = sorted(set(STRING_OPTS) | set(n for n in KNOWN if impl.category(n) == "string"))
+    out = []
+    for n in nums:
+        for s in UNICODE_SAMPLES:
+            out.append((0, 1, 0x0101, b"\x07", [(n, s.encode("utf-8"))], b""))
+        out.append((1, 2, 0x0102, b"", [(n, s.encode("utf-8")) for s in UNICODE_SAMPLES[3:9]], b"p"))
+    for k, s in enumerate(UNICODE_SAMPLES):
+        out.append((0, 69, 0x0200 + k, b"tk", [(n, UNICODE_SAMPLES[(k + j) % len(UNICODE_SAMPLES)].encode("utf-8")) for j, n in enumerate(nums)], b"\xffx"))
     return out
 
 
